@@ -515,6 +515,9 @@ func (m *Model) isBlockingInstr(in ssa.Instruction) bool {
 			case "time.Sleep", "(*sync.WaitGroup).Wait":
 				return true
 			}
+			if m.isLib(f) && m.mustBlock(f) {
+				return true
+			}
 		}
 	}
 	return false
